@@ -356,6 +356,11 @@ func writeBack(c *evid.Ctx) {
 		"a=1\na=2\n",
 		"#only\n",
 	}
+	// every shape of a comment line (column 0 / indented with blanks or a tab; without "=", with one,
+	// with several, with an empty right-hand side) before, between and after the key lines
+	for _, cl := range []string{"#c", "# c = 1", "#k=", "#a=b=c", "  # ind", "  # ind = v", "  #k=", "  #a=b=c", "\t#tab=1", "   #a=1"} {
+		files = append(files, cl+"\na=1\n", "a=1\n"+cl+"\nb=2\n", "a=1\n"+cl)
+	}
 	maps := []map[string]string{
 		{"n": "new"}, {"a": "changed"}, {"a": ""}, {"n": `back\slash`}, {"n": `two\\slashes`}, {"n": "x=y"}, {"n": "has#hash"}, {"n": "k:v"}, {"n": " lead"}, {"n": "trail "}, {"n": "한글"},
 		{"a": "A", "n": "N"},
